@@ -162,6 +162,10 @@ class Requests(Part):
             state["pred_made"] = False
             # vectors come from a small pool: the same design may be requested (and truly evaluated) several times
             ind = Individual(list(rng.choice(vpool)))
+            if rng.random() < 0.25:
+                # a design that already carries (stale) costs: re-evaluated objects, moved particles, designs read from a store
+                ind.costs = [25.0, -1.0]
+                ind.costs_signed = [25.0, -1.0, 0]
             ndata_before = len(sur.x_data)
             st, val = observe(sur.evaluate, ind)
             ev = {"ev": "request", "accept": bool(acc), "kind": "eval", "returned_true": False, "returned_pred": False,
